@@ -1239,7 +1239,9 @@ pub(crate) fn eval_query(ctx: &Context, expr: &Query) -> Result<QueryReply, Quer
                 dim_name = ctx
                     .canonicalize(dim.as_str())
                     .unwrap_or_else(|| dim.to_string());
-                let category = ctx.registry.categories.get(&dim_name);
+                // Categories are keyed by the name a unit is defined
+                // under, which for a base unit is its id.
+                let category = ctx.registry.categories.get(dim.as_str());
                 out.push((category, &dim_name));
             }
             out.sort_by(|&(ref c1, ref n1), &(ref c2, ref n2)| {
